@@ -4,7 +4,7 @@ import ast
 from ..core import sym
 from ..core.expand import u, call_name, get_arg, bind_args, Expander, is_marker, phi_alternatives
 from ..core.loader import Inconclusive, const_value, parents
-from .common import (returns, all_nodes, callee, strip_shape, calls_in, guards_of, stmt_of, kw, find_assignments,
+from .common import (accumulation_as_list, element_of, returns, all_nodes, callee, strip_shape, calls_in, guards_of, stmt_of, kw, find_assignments,
                      dict_literal_items, in_loop)
 
 EXPLANATION = (
@@ -296,14 +296,57 @@ def rule_optional_magnitudes(ck):
     (o.fail('; '.join(probs)) if probs else o.ok('handled: %s' % [h.split('.')[-1] for h in handlers]))
 
 
+def _loop_appends_rows(t, slot):
+    """loop form: one loop over the rows of self.catalog that, in every iteration and unconditionally, appends to `slot` a
+    value built from that row (data flow from the loop variable through assignments, inner loops and appends)"""
+    loops = [n for n in all_nodes(t) if isinstance(n, ast.For) and 'self.catalog' in u(n.iter) and in_loop(n, t.node) is None]
+    if len(loops) != 1:
+        return False
+    lp = loops[0]
+    if any(isinstance(x, (ast.Break, ast.Return)) for x in ast.walk(lp)) or \
+            any(isinstance(x, ast.Continue) and in_loop(x, t.node) is lp for x in ast.walk(lp)):
+        return False
+    apps = [x for x in ast.walk(lp) if isinstance(x, ast.Call) and isinstance(x.func, ast.Attribute) and x.func.attr == 'append' and u(x.func.value) == slot]
+    if len(apps) != 1 or not any(stmt_of(apps[0]) is s_ for s_ in lp.body):
+        return False
+    tainted = {n.id for n in ast.walk(lp.target) if isinstance(n, ast.Name)}
+    changed = True
+    while changed:
+        changed = False
+        for n in ast.walk(lp):
+            new = set()
+            if isinstance(n, ast.Assign) and any(isinstance(x, ast.Name) and x.id in tainted for x in ast.walk(n.value)):
+                new = {x.id for tg in n.targets for x in ast.walk(tg) if isinstance(x, ast.Name)}
+            elif isinstance(n, ast.For) and n is not lp and any(isinstance(x, ast.Name) and x.id in tainted for x in ast.walk(n.iter)):
+                new = {x.id for x in ast.walk(n.target) if isinstance(x, ast.Name)}
+            elif isinstance(n, ast.Call) and isinstance(n.func, ast.Attribute) and n.func.attr in ('append', 'extend') and isinstance(n.func.value, ast.Name) \
+                    and any(isinstance(x, ast.Name) and x.id in tainted for a_ in n.args for x in ast.walk(a_)):
+                new = {n.func.value.id}
+            if new - tainted:
+                tainted |= new
+                changed = True
+    return any(isinstance(x, ast.Name) and x.id in tainted for x in ast.walk(apps[0].args[0]))
+
+
 def rule_forms(ck):
     P = ck.prog
     ck.clause('D7')
     t = P.func(A + 'to_dict')
     o = ck.ob('C14-D7.todict', t, "out['catalog'] holds every event row", t.node)
-    loops = [n for n in all_nodes(t) if isinstance(n, ast.For) and 'self.catalog.tolist()' in u(n.iter)]
-    ok = len(loops) == 1 and any(isinstance(x, ast.Call) and u(x.func) == "out['catalog'].append" for x in ast.walk(loops[0])) and \
-        not any(isinstance(x, (ast.Break, ast.Continue)) for x in ast.walk(loops[0]))
+    # out['catalog'] is an order-preserving map over the rows of self.catalog: its generic element derives from the generic row
+    slot = "out['catalog']"
+    acc = accumulation_as_list(t, slot)
+    val = acc
+    if val is None:
+        cands = [a_ for a_ in all_nodes(t) if isinstance(a_, ast.Assign) and len(a_.targets) == 1 and u(a_.targets[0]) == slot
+                 and not (isinstance(a_.value, ast.List) and not a_.value.elts)]
+        val = cands[0].value if len(cands) == 1 else None
+    ok = False
+    if val is not None:
+        el = u(element_of(P, t, val))
+        ok = '__elem__(self.catalog.tolist())' in el or '__elem__(self.catalog)' in el
+    if not ok:
+        ok = _loop_appends_rows(t, slot)
     (o.ok() if ok else o.fail("to_dict does not append every row of self.catalog to out['catalog']"))
     f = P.func(A + 'from_dict')
     o = ck.ob('C14-D7.fromdict', f, "cls(data=adict['catalog'])", f.node)
